@@ -201,7 +201,9 @@ def x_eval_module_expr(self, st, node, mod):
         return KeyError
     if isinstance(node, ast.Call):
         fn = self.ix.resolve_expr(mod, node.func)
-        if not (isinstance(node.func, ast.Name) and node.func.id in ("tuple", "list", "dict", "set", "frozenset", "sorted")) and not isinstance(fn, FuncInfo):
+        ext_ok = isinstance(fn, tuple) and fn and fn[0] == "ext" and (fn[1] in ("collections.namedtuple", "functools.partial") or fn[1].startswith("operator."))
+        if not (isinstance(node.func, ast.Name) and node.func.id in ("tuple", "list", "dict", "set", "frozenset", "sorted")) and not isinstance(fn, FuncInfo) \
+                and not ext_ok:
             return KeyError
     saved, saved_frames = self.cur_func, st.frames
     self.cur_func = _ModuleScope(mod)
@@ -258,7 +260,23 @@ def x_module_table(self, st, node, mod, _depth=0):
     try:
         return self.x_lift(st, self.ix.fold(node, mod))
     except NotConst:
-        return KeyError
+        pass
+    if isinstance(node, ast.Call):
+        return x_eval_module_expr(self, st, node, mod)       # methodcaller("walk_scenarios"), partial(...), namedtuple(...)
+    if isinstance(node, ast.Lambda):
+        saved, saved_frames = self.cur_func, st.frames
+        self.cur_func = _ModuleScope(mod)
+        st.frames = [{}]
+        try:
+            outs = self.eval(st, node)
+        except AnalysisError:
+            outs = []
+        finally:
+            self.cur_func = saved
+            st.frames = saved_frames
+        if len(outs) == 1 and outs[0][1] == "val" and outs[0][0] is st:
+            return outs[0][2]
+    return KeyError
 
 
 def x_const(self, st, key, v):
@@ -1015,6 +1033,12 @@ def get_attr(self, st, base, attr, node, default=KeyError):
                     rv = _abscall.fold_regex_const(self, lc[1], lc[0].module)
                     if rv is not KeyError:
                         return [(st, "val", rv)]
+                    rv = x_module_table(self, st, lc[1], lc[0].module)       # class-level dispatch table
+                    if rv is not KeyError:
+                        return [(st, "val", rv)]
+                    rv = x_eval_module_expr(self, st, lc[1], lc[0].module)
+                    if rv is not KeyError:
+                        return [(st, "val", rv)]
                     return [(st, "val", Top("classconst:" + attr))]
             if hook is not None:
                 return hook(self, st, [base, attr, default], {}, node)
@@ -1116,6 +1140,12 @@ def get_attr(self, st, base, attr, node, default=KeyError):
                     return [(st, "val", self.x_const(st, "%s.%s" % (lc[0].fullname, attr), self.ix.fold(lc[1], lc[0].module)))]
                 except NotConst:
                     rv = _abscall.fold_regex_const(self, lc[1], lc[0].module)
+                    if rv is not KeyError:
+                        return [(st, "val", rv)]
+                    rv = x_module_table(self, st, lc[1], lc[0].module)       # class-level dispatch table
+                    if rv is not KeyError:
+                        return [(st, "val", rv)]
+                    rv = x_eval_module_expr(self, st, lc[1], lc[0].module)
                     if rv is not KeyError:
                         return [(st, "val", rv)]
                     return [(st, "val", Top("classconst:" + attr))]
